@@ -117,6 +117,7 @@ struct nni_pipe {
 	nni_dialer        *p_dialer;
 	nni_listener      *p_listener;
 	nni_atomic_bool    p_closed;
+	bool               p_starting; // protocol pipe_start in progress
 	nni_atomic_flag    p_stop;
 	nni_reap_node      p_reap;
 	nni_refcnt         p_refcnt;
@@ -154,6 +155,7 @@ extern void nni_listener_stop(nni_listener *);
 extern void nni_pipe_add(nni_pipe *);
 extern void nni_pipe_remove(nni_pipe *);
 extern bool nni_pipe_is_closed(nni_pipe *);
+extern void nni_pipe_start_wait(nni_pipe *);
 extern void nni_pipe_run_cb(nni_pipe *, nng_pipe_ev);
 
 extern void nni_pipe_start(nni_pipe *);
